@@ -69,11 +69,13 @@ def main():
             common._verif_serial[0] = 0
         except AttributeError:
             pass
-        tab = Tableau(case['logic'], Argument(case['arg']), build_timeout=case['timeout'], max_steps=300)
+        tab = Tableau(case['logic'], Argument(case['arg']), build_timeout=case['timeout'], max_steps=300,
+                      is_build_models=bool(case.get('models')))
         if ref:
             tab.timers = tab.timers._replace(build=RefWatch())
         trace = []
         for _ in range(400):
+            c0 = clock[0]
             try:
                 e = tab.step()
                 res = 'entry' if e else 'none'
@@ -82,8 +84,9 @@ def main():
             f = tab.flag
             F = Tableau.Flag
             w = tab.timers.build
+            spent = int(round((clock[0] - c0) * 1000))       # clock time that passed inside this step() call
             trace.append([res, bool(F.FINISHED in f), bool(F.PREMATURE in f), bool(F.TIMED_OUT in f), len(tab.history),
-                          w.elapsed_ms() if not w.running else None])
+                          w.elapsed_ms() if not w.running else None, spent])
             if res != 'entry':
                 break
         return trace
